@@ -205,11 +205,11 @@ theorem pipelineTrace_driver_nil (fns : List DFn) (hg : TableGuarded fns) (regs 
   · simp only [ha, if_true]; exact runFn_driver_nil fns hg st env hdry fuel r.handler
   · simp only [ha]; rfl
 
-/-- `processor.Execute`: DryRun ⇒ same build part as the real run, nothing sent -/
-theorem execute_dry_equals_real (fns : List DFn) (hs : TableScoped fns) (hg : TableGuarded fns)
+/-- `processor.Execute`: DryRun ⇒ same build part as the real run, nothing sent (whichever `DB.Begin` exists) -/
+theorem execute_dry_equals_real (b : Bool) (fns : List DFn) (hs : TableScoped fns) (hg : TableGuarded fns)
     (regs : List CbReg) (st : RunSt) (env : String → Bool) (fuel : Nat) (hdry : st.dryRun = true) :
-    (execute fns regs st env fuel).built = (execute fns regs st.real env fuel).built ∧
-    (execute fns regs st env fuel).sent = [] := by
+    (execute b fns regs st env fuel).built = (execute b fns regs st.real env fuel).built ∧
+    (execute b fns regs st env fuel).sent = [] := by
   constructor
   · unfold execute RunSt.real
     simp only
@@ -217,5 +217,24 @@ theorem execute_dry_equals_real (fns : List DFn) (hs : TableScoped fns) (hg : Ta
   · unfold execute
     simp only
     exact pipelineTrace_driver_nil fns hg regs st env hdry fuel
+
+/-- transaction-control calls of the callbacks reach the pool only if `txReaches` -/
+theorem execute_txs_nil_of_not_reaches (b : Bool) (fns : List DFn) (regs : List CbReg) (st : RunSt)
+    (env : String → Bool) (fuel : Nat) (h : txReaches b st = false) :
+    (execute b fns regs st env fuel).txs = [] := by
+  simp [execute, h]
+
+/-- with the repaired `DB.Begin` a DryRun handle never reaches the pool with a transaction-control call -/
+theorem txReaches_dry (st : RunSt) (hd : st.dryRun = true) : txReaches true st = false := by
+  simp [txReaches, hd]
+
+/-- the unrepaired `DB.Begin` does not look at DryRun -/
+theorem txReaches_off (st : RunSt) : txReaches false st = true := by
+  simp [txReaches]
+
+/-- … hence the model without the repair is the former model: every transaction call of the trace -/
+theorem execute_txs_off (fns : List DFn) (regs : List CbReg) (st : RunSt) (env : String → Bool) (fuel : Nat) :
+    (execute false fns regs st env fuel).txs = (pipelineTrace fns regs st env fuel).filter (fun e => e.cls = .tx) := by
+  simp [execute, txReaches]
 
 end Gorm
